@@ -36,6 +36,8 @@ import (
 	"github.com/rs/zerolog"
 	"github.com/youmark/pkcs8"
 
+	"github.com/dadrus/heimdall/internal/cache"
+	"github.com/dadrus/heimdall/internal/cache/memory"
 	"github.com/dadrus/heimdall/internal/config"
 	"github.com/dadrus/heimdall/internal/handler/management"
 	"github.com/dadrus/heimdall/internal/handler/requestcontext"
@@ -473,7 +475,16 @@ type c16Holder struct {
 	scheme     string
 }
 
+// c16Issued: a token the finalizer handed out before, with the operation that received it first and the clock
+// readings around that call (a token handed out again comes from the cache: every signature draws a fresh jti)
+type c16Issued struct {
+	op     int
+	t0, t1 time.Time
+}
+
 type c16World struct {
+	cch     cache.Cache // the process-wide cache of the case (real in-memory cache), nil: no cache in the context
+	issued  map[string]c16Issued
 	env     *c16Env
 	rec     *c16Watcher
 	cc      *c16Creation
@@ -541,7 +552,17 @@ func c16NewWorld(c map[string]any, realWatcher bool) (*c16World, []any, error) {
 		return nil, nil, err
 	}
 
-	w := &c16World{env: env, rec: &c16Watcher{listeners: map[string][]watcher.ChangeListener{}}}
+	w := &c16World{env: env, rec: &c16Watcher{listeners: map[string][]watcher.ChangeListener{}},
+		issued: map[string]c16Issued{}}
+
+	if v, ok := c["cache"]; ok && v != nil {
+		// never started: no janitor goroutine is needed, Get refuses expired items itself
+		if w.cch, err = memory.NewCache(nil, nil, nil); err != nil {
+			env.close()
+
+			return nil, nil, err
+		}
+	}
 	w.cc = &c16Creation{w: w.rec, khr: keyholder.VerifC16NewRegistry(), obs: &c16Observer{}}
 
 	if realWatcher {
@@ -1048,12 +1069,31 @@ func (w *c16World) signOnce(op map[string]any) (string, map[string]any, time.Tim
 		}
 	}
 
+	app := zerolog.Nop().WithContext(context.Background())
+	if w.cch != nil {
+		app = cache.WithContext(app, w.cch)
+	}
+
 	req := httptest.NewRequest(http.MethodGet, "http://heimdall.test/foo", nil)
-	req = req.WithContext(zerolog.Nop().WithContext(context.Background()))
-	ctx := requestcontext.New(req)
+	req = req.WithContext(app)
+	rctx := requestcontext.New(req)
+
+	var ctx heimdall.Context = rctx
+
+	if in, ok := op["inside"]; ok && in != nil {
+		// the key store of this finalizer is reloaded while Execute runs: at the first time the finalizer asks for the
+		// pipeline outputs, which is the last step of the cache key calculation (the signer hash has been read, the
+		// cache has not been asked yet, nothing has been signed)
+		ctx = &c16HookCtx{Context: rctx, hook: func() {
+			rop := map[string]any{"h": op["h"], "store": obj(in)["store"]}
+			if _, rerr := w.reload(rop, false, nil); rerr != nil {
+				panic(rerr)
+			}
+		}}
+	}
 
 	for k, v := range obj(op["outputs"]) {
-		ctx.Outputs()[k] = c16Plain(v)
+		rctx.Outputs()[k] = c16Plain(v)
 	}
 
 	var sub *subject.Subject
@@ -1075,14 +1115,14 @@ func (w *c16World) signOnce(op map[string]any) (string, map[string]any, time.Tim
 	}
 
 	names := []string{}
-	for name := range ctx.UpstreamHeaders() {
+	for name := range rctx.UpstreamHeaders() {
 		names = append(names, name)
 	}
 
 	sort.Strings(names)
 
 	res := map[string]any{"upstream_headers": names}
-	values := ctx.UpstreamHeaders().Values(h.headerName)
+	values := rctx.UpstreamHeaders().Values(h.headerName)
 
 	if len(values) != 1 {
 		res["err"] = fmt.Sprintf("%d values in header %s", len(values), h.headerName)
@@ -1100,6 +1140,22 @@ func (w *c16World) signOnce(op map[string]any) (string, map[string]any, time.Tim
 	res["scheme"] = values[0][:cut]
 
 	return values[0][cut+1:], res, t0, t1
+}
+
+// c16HookCtx runs a hook when the pipeline outputs are asked for the first time
+type c16HookCtx struct {
+	heimdall.Context
+	calls int
+	hook  func()
+}
+
+func (c *c16HookCtx) Outputs() map[string]any {
+	c.calls++
+	if c.calls == 1 {
+		c.hook()
+	}
+
+	return c.Context.Outputs()
 }
 
 // json.Number -> int64 / float64 so that templates and marshalling see ordinary values
@@ -1181,7 +1237,35 @@ func (w *c16World) reload(op map[string]any, async bool, wg *sync.WaitGroup) (st
 // ---------------------------------------------------------------------------------------------------------------
 // family "signer": sequential operations
 
+// Cases with a cache run on the wall clock (the finalizer reads time.Now() and the in-memory cache its own clock):
+//   - "tick_ms" > 0: every token creation names the tick ("at") it has to happen in: it starts no earlier than the
+//     tick and must be over within the first 2/5 of it. Cache lifetimes of such cases are m ticks and a half, so an
+//     entry stored in tick a is certainly alive in tick a+m and certainly gone in tick a+m+1.
+//   - "tick_ms" = 0: all lifetimes of the case are either not positive or longer than twice "max_ms"; the whole case
+//     must be over within "max_ms".
+//
+// A run that misses its schedule proves nothing and is repeated; after c16MaxRetries attempts the case is reported as
+// {"timing": true} (counted by the check, not judged).
+var errC16Late = errors.New("c16: the run missed its schedule")
+
+const c16MaxRetries = 12
+
 func c16RunSigner(c map[string]any) (any, error) {
+	for range c16MaxRetries {
+		res, err := c16RunSignerOnce(c)
+		if errors.Is(err, errC16Late) {
+			time.Sleep(20 * time.Millisecond)
+
+			continue
+		}
+
+		return res, err
+	}
+
+	return map[string]any{"timing": true}, nil
+}
+
+func c16RunSignerOnce(c map[string]any) (any, error) {
 	w, created, err := c16NewWorld(c, false)
 	if err != nil {
 		return nil, err
@@ -1189,15 +1273,64 @@ func c16RunSigner(c map[string]any) (any, error) {
 
 	defer w.close()
 
+	var (
+		tick   time.Duration
+		window time.Duration
+		limit  time.Duration
+	)
+
+	if w.cch != nil {
+		cc := obj(c["cache"])
+		tick = time.Duration(getInt(cc, "tick_ms")) * time.Millisecond
+		window = tick * 2 / 5
+		limit = time.Duration(getInt(cc, "max_ms")) * time.Millisecond
+	}
+
+	origin := time.Now()
 	results := []any{}
 
-	for _, o := range getArr(c, "ops") {
+	for idx, o := range getArr(c, "ops") {
 		op := obj(o)
 
 		switch getStr(op, "op") {
 		case "sign":
+			var start time.Time
+
+			if tick > 0 {
+				start = origin.Add(time.Duration(getInt(op, "at")) * tick)
+				if d := time.Until(start); d > 0 {
+					time.Sleep(d)
+				}
+			}
+
 			raw, res, t0, t1 := w.signOnce(op)
+
+			if tick > 0 && (t0.Before(start) || t1.After(start.Add(window))) {
+				return nil, errC16Late
+			}
+
 			if raw != "" {
+				if w.cch != nil {
+					first, seen := w.issued[raw]
+					if !seen {
+						first = c16Issued{op: idx, t0: t0, t1: t1}
+						w.issued[raw] = first
+					}
+
+					// which operation received this very token first (itself: freshly signed), and what the clock says
+					// about the hand-out: how old the token is at least, how long it is still valid at least
+					res["from"] = first.op
+					timing := map[string]any{"age_lower_ns": t0.Sub(first.t1).Nanoseconds(),
+						"issue_window_ns": first.t1.Sub(first.t0).Nanoseconds()}
+					res["timing"] = timing
+					handedOut := t1
+					t0, t1 = first.t0, first.t1
+
+					if exp, ok := c16ExpOf(raw); ok {
+						timing["exp_minus_now_s"] = exp - handedOut.Unix()
+					}
+				}
+
 				jwks := w.fetchJWKS()
 				for k, v := range w.analyseToken(raw, t0, t1, jwks).res {
 					res[k] = v
@@ -1221,8 +1354,44 @@ func c16RunSigner(c map[string]any) (any, error) {
 		}
 	}
 
+	if w.cch != nil && tick == 0 && limit > 0 && time.Since(origin) > limit {
+		return nil, errC16Late
+	}
+
 	return map[string]any{"created": created, "ops": results, "observed_suppliers": int(w.cc.obs.n.Load()),
 		"transport": w.ep.transport}, nil
+}
+
+// the exp claim of a compact JWS (not verified here)
+func c16ExpOf(raw string) (int64, bool) {
+	parts := strings.Split(raw, ".")
+	if len(parts) != 3 {
+		return 0, false
+	}
+
+	pb, err := base64.RawURLEncoding.DecodeString(parts[1])
+	if err != nil {
+		return 0, false
+	}
+
+	var claims struct {
+		Exp json.Number `json:"exp"`
+	}
+
+	dec := json.NewDecoder(bytes.NewReader(pb))
+	dec.UseNumber()
+
+	if dec.Decode(&claims) != nil {
+		return 0, false
+	}
+
+	if i, err := claims.Exp.Int64(); err == nil {
+		return i, true
+	}
+
+	f, err := claims.Exp.Float64()
+
+	return int64(f), err == nil
 }
 
 // ---------------------------------------------------------------------------------------------------------------
